@@ -1,5 +1,4 @@
-import SC.Proofs.SrcCompare
-import SC.Proofs.SrcFunsB
+import SC.Proofs.SrcBaseB
 /-!
 `bytcase.Compare` on the regenerated program text (`Gen.Src.byt`), part 1: the rune loop, which differs from strcase's — both
 arguments are decoded and folded eagerly (`s[0] < RuneSelf ? _lower[s[0]] : CaseFold(DecodeRune(s))` on each side): four decode
@@ -8,9 +7,6 @@ combinations times three outcomes.
 open GoSsa Gen.Src Utf8
 
 namespace GoSsa.Byt
-
-theorem find_clamp : P.find? (fun fn => fn.name == "clamp") = some byt_clamp := by rfl
-theorem nb_clamp (a h) : builtin true "clamp" a h = none := by rfl
 
 theorem clamp_run (n : Int) (h : Heap) (fuel : Nat) (hf : 6 ≤ fuel) :
     run P true fuel (Frame.entry byt_clamp [.int n]) h = .ok [.int (Utf8.clamp n)] h := by
